@@ -1066,3 +1066,51 @@ def check_L31(ctx, rep):
     rep.inst('L31', 'ascent: %d functions scanned, %d blocking lock / map acquisitions, non-blocking attempts as listed' % (n_fn, n_acq))
     if n_acq < 5:
         raise Broken('L31: only %d blocking acquisitions recognised in the ascent crate (anchor lost?)' % n_acq)
+
+
+# ------------------------------------------------------------------ L1b
+
+def check_L1b(ctx, rep):
+    """concurrent writers (`&self`) of the DashMap backed index types touch the map once per call: an `entry(..)` operation holds
+    the shard lock across "is the key there?" and "add the value". A lookup (`get` / `get_mut` / `contains_key`) followed by an
+    `insert` in the same function is check-then-act: two workers that bring the same fresh key at the same moment both see it
+    absent, and the second `insert` replaces the first one's rows."""
+    cr = ctx.lib('ascent')
+    n = 0
+    for path, b in sorted(cr.bodies.items()):
+        if not any(m in path for m in ('c_rel_index', 'c_rel_full_index', 'c_lat_index')) or b['name'].startswith('test') or not b['params']:
+            continue
+        p0 = b['params'][0]
+        pty = cr.s(p0.get('t')) or ''
+        if not pty.startswith('&') or pty.startswith('&mut'):
+            continue
+        looks, writes, entries = [], [], []
+        for x, _ in walk(b['tree']):
+            if x.get('k') != 'mcall':
+                continue
+            rty = (cr.ty(x['r']) or '')
+            if 'DashMap<' not in rty and 'dashmap::' not in (cname(x.get('c')) or ''):
+                continue
+            nm = cname(x.get('c')) or ''
+            if 'DashMap' not in nm:
+                continue
+            if x['m'] in ('get', 'get_mut', 'contains_key', 'try_get', 'try_get_mut', 'view'):
+                looks.append(x)
+            elif x['m'] in ('insert', 'remove', 'alter', 'insert_and_get'):
+                writes.append(x)
+            elif x['m'] in ('entry', 'try_entry'):
+                entries.append(x)
+        if not (looks or writes or entries):
+            continue
+        n += 1
+        bad = bool(looks and writes)
+        rep.inst('L1b', '%s: %d entry op(s), %d lookup(s), %d blind write(s) on the shared map: %s' % (
+            path, len(entries), len(looks), len(writes), 'CHECK-THEN-ACT' if bad else 'one critical section per touch'))
+        rep.functions.add(path)
+        if bad:
+            rep.viol('L1', path, 'check-then-act:' + looks[0]['m'] + '+' + writes[0]['m'],
+                     'a shared-reference writer looks the key up (`%s`) and then writes (`%s`) in two separate map operations: two workers '
+                     'with the same fresh key both find it absent and one overwrites the other\'s rows' % (looks[0]['m'], writes[0]['m']),
+                     loc=cr.loc(writes[0]))
+    if n < 3:
+        raise Broken('L1b: only %d shared-reference functions touching a DashMap found in the concurrent index types' % n)
